@@ -22,15 +22,38 @@ pub fn run_cli_flags(args: &Args, property: &str) -> Report {
     let dir = dir.canonicalize().unwrap();
     let (pa, pb, log) = (dir.join("a"), dir.join("b"), dir.join("markers.log"));
     for i in 0..n {
-        let opts = GenOpts { error_pct: 10, ..GenOpts::default() };
+        // each property exercises the part of the flag mapping it depends on
+        let opts = GenOpts { error_pct: if property == "C04" { 50 } else { 10 }, ..GenOpts::default() };
         let p = gen_project(&mut rng, &opts);
-        let variant = rng.below(5);
+        let variants: &[usize] = match property {
+            "C06" => &[3],
+            "C07" => &[4],
+            "C09" => &[1, 2],
+            "C13" => &[0],
+            _ => &[0, 1, 2, 3, 4],
+        };
+        let variant = *rng.pick(variants);
         let mut cfg = RunCfg::build_all();
         cfg.threads = 1 + rng.below(4);
         cfg.recursive = rng.chance(2, 3);
         let mut flags: Vec<String> = vec!["-q".into(), "-j".into(), cfg.threads.to_string()];
         if cfg.recursive {
             flags.push("-r".into());
+        }
+        // inputs: the whole tree, a sub-directory, or some sources by name (source name or output name)
+        if !matches!(property, "C09" | "C13") && rng.chance(1, 2) {
+            let mut inputs: Vec<String> = vec![];
+            if !p.dirs.is_empty() && rng.chance(1, 2) {
+                inputs.push(rng.pick(&p.dirs).clone());
+            }
+            for s in &p.sources {
+                if rng.chance(1, 3) {
+                    inputs.push(if rng.chance(1, 2) { s.clone() } else { output_name(s) });
+                }
+            }
+            if !inputs.is_empty() {
+                cfg.inputs = inputs;
+            }
         }
         let mut sub: Option<&str> = None;
         match variant {
@@ -71,7 +94,7 @@ pub fn run_cli_flags(args: &Args, property: &str) -> Report {
         if let Some(s) = sub {
             c.arg(s);
         }
-        c.args(&flags).arg(".");
+        c.args(&flags).args(&cfg.inputs);
         let out = c.output().expect("cli");
         let (after, meta_after) = snapshot(&pb);
         rep.evaluations += 1;
@@ -92,10 +115,10 @@ pub fn run_cli_flags(args: &Args, property: &str) -> Report {
             }
         }
         if let Some(what) = bad {
-            rep.violation("oracle", &format!("{property}: CLI `{} {}`: {what}", sub.unwrap_or(""), flags.join(" ")), &replay_body(&start, &cfg, &p.cmds, &format!("# CLI flags: {:?} {:?}\n# {what}\n", sub, flags)));
+            rep.violation("oracle", &format!("{property}: CLI `{} {} {:?}`: {what}", sub.unwrap_or(""), flags.join(" "), cfg.inputs), &replay_body(&start, &cfg, &p.cmds, &format!("# CLI flags: {:?} {:?}\n# {what}\n", sub, flags)));
         }
         if i == 0 {
-            rep.sample(format!("CLI `{} {} .` vs library {} => exit ok={cli_ok}, verdict {}", sub.unwrap_or(""), flags.join(" "), cfg.describe(), lib.verdict));
+            rep.sample(format!("CLI `{} {} {:?}` vs library {} => exit ok={cli_ok}, verdict {}", sub.unwrap_or(""), flags.join(" "), cfg.inputs, cfg.describe(), lib.verdict));
         }
     }
     let _ = std::fs::remove_dir_all(&dir);
